@@ -31,11 +31,12 @@ type Front struct {
 	ImportAtStart  bool    `json:"import_at_start,omitempty"`
 	HandlerReturns bool    `json:"handler_returns,omitempty"` // HandleErr returns instead of panicking
 	NoSkipConst    bool    `json:"no_skip_const,omitempty"`
-	EarlyWrites    []int   `json:"early_writes,omitempty"` // every file is written (and the result dropped) after these body ordinals
-	LateForce      []int   `json:"late_force,omitempty"`   // after the first round of writes: force-import path LateForce[2k+1] into file LateForce[2k] (no declaration follows)
-	Rewrites       int     `json:"rewrites,omitempty"`     // extra rounds of writing every file at the end (the last round counts)
-	WriteOrder     []int   `json:"write_order,omitempty"`  // order in which the files are written at the end (permutation code)
-	XGoBuiltin     bool    `json:"xgo_builtin,omitempty"`  // XGo-style configuration: untyped big types, overloaded println, builtin-type methods
+	EarlyWrites    []int   `json:"early_writes,omitempty"`   // every file is written (and the result dropped) after these body ordinals
+	LateForce      []int   `json:"late_force,omitempty"`     // after the first round of writes: force-import path LateForce[2k+1] into file LateForce[2k] (no declaration follows)
+	Rewrites       int     `json:"rewrites,omitempty"`       // extra rounds of writing every file at the end (the last round counts)
+	WriteOrder     []int   `json:"write_order,omitempty"`    // order in which the files are written at the end (permutation code)
+	CompleteEarly  bool    `json:"complete_early,omitempty"` // grouped type declarations are closed before their lazily loaded members get a type
+	XGoBuiltin     bool    `json:"xgo_builtin,omitempty"`    // XGo-style configuration: untyped big types, overloaded println, builtin-type methods
 	Faults         []Fault `json:"faults,omitempty"`
 }
 
@@ -50,7 +51,7 @@ type Fault struct {
 
 const BuiltinPath = "github.com/goplus/gogen/internal/builtin"
 
-var FaultKinds = []string{"unsafe_ref", "unit_lit", "abort_return", "bigint_op", "discard_ref", "abort_stmt", "abort_init", "abort_endinit", "callex_err", "abort_header", "discard_reset", "vblock", "inline_closure"}
+var FaultKinds = []string{"bti_call", "unsafe_ref", "unit_lit", "abort_return", "bigint_op", "discard_ref", "abort_stmt", "abort_init", "abort_endinit", "callex_err", "abort_header", "discard_reset", "vblock", "inline_closure"}
 
 // Env is per-process: export data located once with the real go command, corpus with
 // the results of the acceptance dry run.
@@ -274,6 +275,10 @@ func (e *Env) build(p *prog.Program, f *Front, hooks *minicl.Hooks, ce *CorpusEn
 				conf.UntypedBigFloat = b.Ref("XGo_untyped_bigfloat").Type().(*types.Named)
 				gogen.InitBuiltin(pkg, builtin, conf)
 				pkg.BuiltinTI(types.Typ[types.String]).AddMethods(&gogen.BuiltinMethod{Name: "Capitalize", Fn: b.Ref("Capitalize")})
+				// a front end extending the method tables of slices and channels of its own package
+				sortp := pkg.Import("sort")
+				pkg.BuiltinTI(types.NewSlice(types.Typ[types.Int])).AddMethods(&gogen.BuiltinMethod{Name: "Sort", Fn: sortp.Ref("Ints")})
+				pkg.BuiltinTI(types.NewChan(types.SendRecv, types.Typ[types.Int])).AddMethods(&gogen.BuiltinMethod{Name: "Str", Fn: fmtp.Ref("Sprint")})
 				return builtin
 			}
 			r.XGoBuiltin = true
@@ -290,7 +295,7 @@ func (e *Env) build(p *prog.Program, f *Front, hooks *minicl.Hooks, ce *CorpusEn
 		early[v] = true
 	}
 	opts := &minicl.Options{PkgPath: p.PkgPath, PkgName: tp.Name(), Conf: conf, Hooks: hooks,
-		BodiesEarly: f.BodiesEarly, ImportAtStart: f.ImportAtStart, ForceImports: p.ForceImports}
+		BodiesEarly: f.BodiesEarly, ImportAtStart: f.ImportAtStart, ForceImports: p.ForceImports, CompleteEarly: f.CompleteEarly}
 	if ce != nil {
 		opts.DropUnits, opts.DropBodies = ce.DropUnits, ce.DropBodies
 	}
@@ -640,6 +645,24 @@ func (in *injector) fire(c *minicl.Compiler, ft Fault) {
 			c.B.EndStmt()
 		} else {
 			c.B.ResetStmt()
+		}
+	case "bti_call":
+		// not a fault: a method of a builtin type registered by the front end (XGo configuration)
+		if !in.r.XGoBuiltin {
+			in.r.FaultFired[ft.Kind]--
+			return
+		}
+		switch mod(ft.Arg, 3) {
+		case 0:
+			c.B.Val("abc")
+			c.B.BTICall("Capitalize", 0)
+			c.B.EndStmt()
+		default:
+			c.B.Val(3)
+			c.B.Val(ft.Arg)
+			c.B.SliceLit(types.NewSlice(types.Typ[types.Int]), 2, false)
+			c.B.BTICall("Sort", 0)
+			c.B.EndStmt()
 		}
 	case "unsafe_ref":
 		// not a fault: package unsafe imported by path (every importer answers with the
